@@ -162,6 +162,7 @@ def run(tier, replay_file=None):
     annotations(chk, ex, b, explore)
     extract_description(chk, ex, b)
     reference_closure(chk, ex, b)
+    void_schema(chk, ex, b)
     witnesses(chk)
     return chk.finish('one obligation per (instance kind, keyword-presence shape, execution path, clause)')
 
@@ -480,6 +481,74 @@ def subschema_kinds(chk, ex, b, explore):
     explore('not', mk_not, check_not)
 
 
+def void_schema(chk, ex, b):
+    """api_description::is_empty decides whether a response publishes a body schema at all: it may answer true only for a schema that accepts
+    no JSON value (`false`, or a lone `not` of a schema that accepts everything); any other schema must still be published"""
+    F = mir.find(ex.fns, r'(^|::)api_description::is_empty$')
+    sv = lambda t: ex.some(ex.mk_enum('SingleOrVec', 'Single', [b.boxed(ex.mk_enum('InstanceType', t))]))
+    leafs = {
+        'instance_type': (lambda: sv('String'), {'type': 'string'}), 'format': (lambda: ex.some(sstr('fmt')), {'format': 'f'}),
+        'enum_values': (lambda: ex.some(PVec([Cell(b.jstr(sstr('ev')))])), {'enum': ['a']}), 'const_value': (lambda: ex.some(b.jstr(sstr('cv'))), {'const': 'c'}),
+        'number': (lambda: ex.some(b.boxed(b.number(minimum=1.0))), {'minimum': 1.0}),
+        'string': (lambda: ex.some(b.boxed(ex.mk_struct('StringValidation', max_length=ex.some(z3.BitVecVal(3, 32)), min_length=ex.none(), pattern=ex.none()))), {'maxLength': 3}),
+        'array': (lambda: ex.some(b.boxed(ex.mk_struct('ArrayValidation', items=ex.none(), additional_items=ex.none(), max_items=ex.some(z3.BitVecVal(3, 32)), min_items=ex.none(),
+                                                        unique_items=ex.none(), contains=ex.none()))), {'maxItems': 3}),
+        'object': (lambda: ex.some(b.boxed(ex.mk_struct('ObjectValidation', max_properties=ex.some(z3.BitVecVal(3, 32)), min_properties=ex.none(), required=PSet(), properties=PMap(),
+                                                         pattern_properties=PMap(), additional_properties=ex.none(), property_names=ex.none()))), {'maxProperties': 3}),
+        'reference': (lambda: ex.some(sstr('rf')), {'$ref': REF}),
+    }
+    subkeys = ['all_of', 'any_of', 'one_of', 'if_schema', 'then_schema', 'else_schema']
+    jsub = {'all_of': 'allOf', 'any_of': 'anyOf', 'one_of': 'oneOf', 'if_schema': 'if', 'then_schema': 'then', 'else_schema': 'else'}
+    def subs(not_=None, other=None):
+        d = dict(all_of=ex.none(), any_of=ex.none(), one_of=ex.none(), **{'not': ex.none()}, if_schema=ex.none(), then_schema=ex.none(), else_schema=ex.none())
+        if not_ is not None: d['not'] = ex.some(b.boxed(not_))
+        if other in ('all_of', 'any_of', 'one_of'): d[other] = ex.some(PVec([Cell(b.schema(b.typed('Integer')))]))
+        elif other: d[other] = ex.some(b.boxed(b.schema(b.typed('Integer'))))
+        return ex.some(b.boxed(ex.mk_struct('SubschemaValidation', **d)))
+    # the negated schema: (builder, JSON, accepts every value)
+    inner = [('true', lambda: ex.mk_enum('Schema', 'Bool', [True]), True, True), ('false', lambda: ex.mk_enum('Schema', 'Bool', [False]), False, False),
+             ('{}', lambda: b.schema(b.schema_object()), {}, True),
+             ('{described}', lambda: b.schema(b.schema_object(metadata=ex.some(b.boxed(Opaque('metadata'))))), {'description': 'd'}, True)]
+    for k, (mk, js) in leafs.items():
+        inner.append((f'{{{k}}}', (lambda k=k, mk=mk: b.schema(b.schema_object(**{k: mk()}))), js, False))
+    inner.append(('{not {}}', lambda: b.schema(b.schema_object(subschemas=subs(not_=b.schema(b.schema_object())))), {'not': {}}, False))
+    shapes = [('false', lambda: ex.mk_enum('Schema', 'Bool', [False]), False, True), ('true', lambda: ex.mk_enum('Schema', 'Bool', [True]), True, False),
+              ('{}', lambda: b.schema(b.schema_object()), {}, False)]
+    for k, (mk, js) in leafs.items():
+        shapes.append((f'{{{k}}}', (lambda k=k, mk=mk: b.schema(b.schema_object(**{k: mk()}))), js, False))
+    for iname, imk, ijs, iall in inner:
+        shapes.append((f'not {iname}', (lambda imk=imk: b.schema(b.schema_object(subschemas=subs(not_=imk())))), {'not': ijs}, iall))
+        shapes.append((f'described not {iname}', (lambda imk=imk: b.schema(b.schema_object(metadata=ex.some(b.boxed(Opaque('metadata'))), subschemas=subs(not_=imk())))),
+                       {'description': 'd', 'not': ijs}, iall))
+        for k, (mk, js) in leafs.items():
+            shapes.append((f'{{{k}}} + not {iname}', (lambda k=k, mk=mk, imk=imk: b.schema(b.schema_object(subschemas=subs(not_=imk()), **{k: mk()}))), dict(js, **{'not': ijs}), None))
+        for o in subkeys:
+            shapes.append((f'{o} + not {iname}', (lambda o=o, imk=imk: b.schema(b.schema_object(subschemas=subs(not_=imk(), other=o)))),
+                           {jsub[o]: ([{'type': 'integer'}] if o in subkeys[:3] else {'type': 'integer'}), 'not': ijs}, None))
+    n_void = 0
+    for name, mk, js, void in shapes:
+        outs = ex.explore(lambda ex: ex.call_fn(F, [Ref(Cell(mk()))]), [])
+        chk.paths += len(outs)
+        if not outs: raise Inconclusive(f'vacuity: is_empty explored no path for {name}; {ex.unsupported_paths[-1:]}')
+        for pc, (k, r) in outs:
+            if k != 'ok':
+                m = chk.prove(f'void-schema/{name}/no-panic', pc, z3.BoolVal(True))
+                if m is not None: chk.mismatches.append(f'is_empty panics on {name}: {r}')
+                continue
+            says = ex.truth(r) if z3.is_expr(r) else bool(r)
+            if void is True and says: n_void += 1
+            # `void is None`: the schema accepts nothing as well (a lone `not` of everything next to other keywords); either answer is sound
+            m = chk.prove(f'void-schema/{name}/omitted-only-if-nothing-is-accepted', pc, z3.BoolVal(bool(says) and void is False))
+            if m is not None:
+                case = {'op': 'j2oas', 'schema': js}
+                nat = replay([case])[0]
+                out = nat.get('openapi')
+                chk.counterexample(f'is_empty treats the schema {js} ({name}) as accepting nothing, so a response of that type publishes no body schema; native document: {out}',
+                                   case, out is None and 'panic' not in nat, role='void-schema')
+    if n_void < 3: raise Inconclusive(f'vacuity: is_empty recognised only {n_void} of the void schemas')
+    chk.bounds['void_schema_shapes'] = f'{len(shapes)} shapes: false / true / one keyword / a `not` of 15 inner shapes alone, described, next to each keyword and each other subschema keyword'
+
+
 def same(a, b_):
     """structural identity of two schema values (the code under test only moves / clones them)"""
     a, b_ = dv(a), dv(b_)
@@ -740,7 +809,7 @@ def witnesses(chk):
     cases = [{'op': 'j2oas', 'schema': s_} for s_ in [
         {'type': 'integer', 'format': 'int32', 'minimum': -40.0, 'maximum': 50.0}, {'type': 'integer', 'minimum': -273.0, 'maximum': -1.0, 'multipleOf': 3.0},
         {'type': 'integer', 'exclusiveMinimum': -5.0, 'exclusiveMaximum': 5.0}, {'type': 'number', 'format': 'double', 'minimum': -1.5, 'exclusiveMaximum': 2.25},
-        {'type': 'integer', 'format': 'uint8', 'minimum': 0.0, 'maximum': 255.0}, {'type': 'integer', 'title': 't', 'description': 'd', 'default': None, 'nullable': True, 'x-rust-type': 'x', 'example': 'e'},
+        {'type': 'integer', 'format': 'uint8', 'minimum': 0.0, 'maximum': 255.0}, {'not': {'type': 'string'}}, {'type': 'integer', 'title': 't', 'description': 'd', 'default': None, 'nullable': True, 'x-rust-type': 'x', 'example': 'e'},
     ]]
     cases[-1]['null_default'] = True
     res = replay(cases)
